@@ -60,6 +60,16 @@ fn real_main() {
         }
     }
     let seed: i64 = std::env::var("VERIF_SEED").ok().and_then(|s| s.parse().ok()).unwrap_or(0);
+    // wall-clock guard: a runaway (e.g. a mutated subject that loops) becomes exit 2, never a verdict and never a hang
+    let cap_s: u64 = std::env::var("VERIF_WALL_CAP_S").ok().and_then(|s| s.parse().ok()).unwrap_or(if tier == "quick" { 1800 } else { 6 * 3600 });
+    {
+        let prop = prop.clone();
+        std::thread::spawn(move || {
+            std::thread::sleep(std::time::Duration::from_secs(cap_s));
+            eprintln!("MACHINERY: {} exceeded the wall-clock guard of {} s; exhaustiveness lost, no verdict", prop, cap_s);
+            std::process::exit(2);
+        });
+    }
     let t0 = std::time::Instant::now();
     let jobs = props::jobs(&prop, &tier);
     let extra = match prop.as_str() {
